@@ -164,7 +164,8 @@ def gen_name(rng):
 
 def gen_edges(rng, style=None):
     """strictly increasing pixel-edge array (at least 2 entries)"""
-    style = style or rng.choice(["dyadic", "dyadic", "full", "survey", "hires", "two", "ulp", "intratio", "integer", "many"])
+    style = style or rng.choice(["dyadic", "dyadic", "full", "survey", "hires", "two", "ulp", "intratio", "integer", "many",
+                                  "uniform", "nearuniform"])
     STATS["edges:" + style] += 1
     if style == "two":
         a = dyadic(rng, 200, 900, 6)
@@ -190,6 +191,13 @@ def gen_edges(rng, style=None):
             out[-1] = ulp_up(out[-1])
         elif r < 0.6:
             out[-1] = ulp_dn(out[-1])
+    elif style in ("uniform", "nearuniform"):     # equal widths, or widths drifting by 1e-9 .. 1e-4 relative
+        e, _ = gen_long_edges(rng, n)
+        while style == "nearuniform" and not _.startswith("near"):
+            e, _ = gen_long_edges(rng, n)
+        while style == "uniform" and _ != "uniform":
+            e, _ = gen_long_edges(rng, n)
+        out = e
     elif style == "integer":         # integer-valued edges (can be handed over as int arrays)
         a = float(rng.randint(200, 900))
         out = [a]
@@ -1096,7 +1104,7 @@ def exact_pl_integral(xs, ys, a, b):
     return tot
 
 
-CAL_EDGE_STYLES = ["dyadic", "full", "survey", "hires", "two", "intratio", "integer"]
+CAL_EDGE_STYLES = ["dyadic", "full", "survey", "hires", "two", "intratio", "integer", "uniform", "nearuniform", "nearuniform"]
 
 
 def cal_layout(rng, quick, s):
@@ -1278,6 +1286,136 @@ def cal_search(h):
 
 
 # ---------------------------------------------------------------------------------------------
+# calibrate on long detector arrays (search only: the executable clause on the implementation)
+# ---------------------------------------------------------------------------------------------
+def gen_long_edges(rng, n):
+    """(edges, class label) of one detector row of n pixels: exactly uniform, nearly uniform (relative width drift
+    1e-9 .. 1e-4: linear, quadratic, sinusoidal, random jitter, one odd pixel) or clearly non-uniform"""
+    l0 = rng.choice([float(rng.randint(300, 800)), rng.uniform(300, 800)])
+    b = rng.choice([2.0 ** -rng.randint(4, 8), rng.uniform(0.004, 0.05)])
+    cls = rng.choice(["uniform", "uniform", "near:linear", "near:quadratic", "near:sine", "near:jitter", "near:one pixel",
+                      "near:linear", "near:quadratic", "near:jitter", "nonuniform:growth", "nonuniform:random"])
+    p = np.arange(n + 1, dtype=float)
+    if cls == "uniform":
+        edges = l0 + b * p                                       # widths equal up to the rounding of the edges
+    elif cls.startswith("near"):
+        d = 10.0 ** rng.uniform(-9, -4) * rng.choice([1.0, -1.0])
+        t = np.arange(n, dtype=float) / n
+        if cls == "near:linear":
+            f = t
+        elif cls == "near:quadratic":
+            f = t * t
+        elif cls == "near:sine":
+            f = np.sin(2 * np.pi * rng.randint(1, 5) * t)
+        elif cls == "near:jitter":
+            f = np.array([rng.uniform(-1, 1) for _ in range(n)])
+        else:
+            f = np.zeros(n)
+            f[rng.randrange(n)] = 1.0
+        edges = np.concatenate(([l0], l0 + np.cumsum(b * (1.0 + d * f))))
+        cls += " drift %.0e" % abs(d)
+    elif cls == "nonuniform:growth":
+        g = 1.0 + 10.0 ** rng.uniform(-3, -1.3)
+        edges = np.concatenate(([l0], l0 + np.cumsum(b * g ** np.minimum(np.arange(n), 200))))
+    else:
+        edges = np.concatenate(([l0], l0 + np.cumsum([b * rng.uniform(0.3, 3.0) for _ in range(n)])))
+    return [float(x) for x in edges], cls
+
+
+def pl_cumulative(xs, ys, t):
+    """antiderivative (from xs[0]) at the points t of the linear interpolant of (xs, ys) with constant extrapolation;
+    independent of raysect and of the code under test (NumPy, vectorised)"""
+    xs, ys, t = np.asarray(xs), np.asarray(ys), np.asarray(t)
+    G = np.concatenate(([0.0], np.cumsum(0.5 * (ys[1:] + ys[:-1]) * np.diff(xs)))) if len(xs) > 1 else np.zeros(1)
+    out = np.empty(len(t))
+    lo, hi = t <= xs[0], t >= xs[-1]
+    out[lo] = ys[0] * (t[lo] - xs[0])
+    out[hi] = G[-1] + ys[-1] * (t[hi] - xs[-1])
+    mid = ~(lo | hi)
+    if mid.any():
+        k = np.searchsorted(xs, t[mid], side="right") - 1
+        dx = t[mid] - xs[k]
+        m = (ys[k + 1] - ys[k]) / (xs[k + 1] - xs[k])
+        out[mid] = G[k] + (ys[k] + 0.5 * m * dx) * dx
+    return out
+
+
+def long_cal_case(rng, mod, Spectrum, quick):
+    """one Spectrometer with one or two long pixel rows calibrating a spectrum with narrow features inside single pixels
+    and across pixel edges; returns the case with the list of failed claims (empty on a correct implementation)"""
+    nmax = 400 if quick else 2000
+    rows, classes = [], []
+    for _ in range(rng.choice([1, 1, 2])):
+        n = rng.choice([rng.randint(20, nmax), rng.randint(100, nmax), nmax])
+        e, c = gen_long_edges(rng, n)
+        rows.append(e)
+        classes.append("%s n=%d" % (c.split(" drift")[0], n))
+        STATS["long calibrate:" + c.split(" drift")[0]] += 1
+    mbpp = rng.randint(1, 5 if quick else 3)
+    inst = mod.Spectrometer(form_w2p(rng, rows), mbpp, "long")
+    lo, hi = min(r[0] for r in rows), max(r[-1] for r in rows)
+    grid = rng.choice(["instrument", "instrument", "wider", "coarse"])
+    if grid == "instrument":       # the documented workflow: the spectrum the observer returns for this instrument
+        smin, smax, bins = float(inst.min_wavelength), float(inst.max_wavelength), int(inst.spectral_bins)
+    elif grid == "wider":
+        smin, smax, bins = lo - rng.uniform(0, 2), hi + rng.uniform(0, 2), rng.randint(200, 3000 if quick else 8000)
+    else:
+        smin, smax, bins = lo - 1.0, hi + 1.0, rng.randint(5, 60)
+    bins = min(bins, 4000 if quick else 20000)
+    sp = Spectrum(smin, smax, bins)
+    wl = np.array(sp.wavelengths)
+    ys = np.full(bins, dyadic(rng, 0, 2, 3))
+    feats = []
+    for _ in range(rng.randint(1, 6)):
+        r = rows[rng.randrange(len(rows))]
+        i = rng.randrange(len(r) - 1)
+        w = r[i + 1] - r[i]
+        where = rng.choice(["inside", "edge", "edge"])
+        c0 = r[i] + (rng.uniform(0.2, 0.8) * w if where == "inside" else 0.0)
+        kind = rng.choice(["line", "line", "step", "spike"])
+        if kind == "line":
+            ys = ys + rng.uniform(5, 100) * np.exp(-0.5 * ((wl - c0) / (w * rng.uniform(0.2, 1.5))) ** 2)
+        elif kind == "step":
+            ys = ys + rng.uniform(5, 50) * (wl >= c0)
+        else:
+            ys[int(np.argmin(np.abs(wl - c0)))] += rng.uniform(10, 200)
+        feats.append("%s %s pixel %d" % (kind, where, i))
+    sp.samples[:] = ys
+    ys = [float(y) for y in sp.samples]
+    st, val = call(lambda: inst.calibrate(sp))
+    h = {"kind": "calibrate-long", "classes": classes, "grid": grid, "features": feats, "mbpp": mbpp, "w2p": rows,
+         "smin": float(smin), "smax": float(smax), "bins": bins, "ys": ys, "fails": [], "n_pixels": sum(len(r) - 1 for r in rows)}
+    if st != "ok":
+        h["fails"].append({"claim": "calibrate raised %s for a spectrum whose range covers the instrument" % val})
+        return h
+    scale = max(ys) if max(ys) > 0 else 1.0
+    xs = [float(x) for x in sp.wavelengths]
+    for ri, (r, vals) in enumerate(zip(rows, val)):
+        if len(vals) != len(r) - 1:
+            h["fails"].append({"claim": "calibrate returned %d values for %d pixels" % (len(vals), len(r) - 1), "array": ri})
+            continue
+        e = np.array(r)
+        width = np.diff(e)
+        have = np.array(vals, dtype=float) * width
+        want_impl = np.array([sp.integrate(r[i], r[i + 1]) for i in range(len(r) - 1)])
+        want_indep = np.diff(pl_cumulative(xs, ys, e))
+        tol = 1e-9 * scale * width + 1e-13 * scale * (e[-1] - e[0])
+        bad = np.nonzero((np.abs(have - want_impl) > tol) | (np.abs(have - want_indep) > tol))[0]
+        if len(bad):
+            i = int(bad[np.argmax(np.abs(have - want_impl)[bad])])
+            h["fails"].append({"claim": "calibrated value * pixel width != integral of the spectrum over the pixel",
+                               "array": ri, "layout": classes[ri], "pixel": i, "pixel_edges": [r[i], r[i + 1]],
+                               "observed_value_times_width": float(have[i]), "expected_spectrum_integrate": float(want_impl[i]),
+                               "expected_independent_integral": float(want_indep[i]), "pixels_failing": int(len(bad)),
+                               "pixels": len(r) - 1})
+        tot, whole = float(have.sum()), float(sp.integrate(r[0], r[-1]))
+        if abs(tot - whole) > 1e-9 * scale * (e[-1] - e[0]):
+            h["fails"].append({"claim": "sum of value*width over the pixels != integral of the spectrum over their union",
+                               "array": ri, "layout": classes[ri], "observed": tot, "expected": whole})
+    return h
+
+
+# ---------------------------------------------------------------------------------------------
 def jsonable(o):
     if isinstance(o, dict):
         return {str(k): jsonable(v) for k, v in o.items()}
@@ -1363,6 +1501,7 @@ def run(ctx):
         hist += cal_cases(rng, mod, Spectrum, quick)
     for _ in range(n_flt):
         hist.append(filter_case(rng, mod))
+    long_cases = [long_cal_case(rng, mod, Spectrum, quick) for _ in range(30 if quick else 250)]
     hist.sort(key=lambda h: h["kind"] != "calibrate")     # the expensive files are compiled first (stable sort)
     ctx.log("generated %d cases (%d corpus files present)" % (len(hist), len(corpus)))
 
@@ -1426,8 +1565,11 @@ def run(ctx):
         n_search += 1
         for msg in fl[:2]:
             search_fails.append((i, msg))
-    ctx.obligation("executable property on the implementation (%d histories / calibrations)" % n_search, "search",
-                   not search_fails, str(search_fails[:3]))
+    long_fails = [(h, f) for h in long_cases for f in h["fails"][:1]]
+    n_search += len(long_cases)
+    ctx.obligation("executable property on the implementation (%d histories / calibrations, of which %d on long pixel rows, %d pixels)"
+                   % (n_search, len(long_cases), sum(h["n_pixels"] for h in long_cases)), "search",
+                   not search_fails and not long_fails, str(search_fails[:3]) + str([f for _, f in long_fails[:2]]))
 
     def replay_of(h):
         r = {k: h[k] for k in ("kind", "init", "log", "cur") if k in h}
@@ -1448,6 +1590,24 @@ def run(ctx):
             continue
         seen_keys.add(key)
         ctx.violation(key, "%s: %s" % (h["kind"], msg), replay_of(h), found=True)
+    seen_long = set()
+    for h, f in long_fails:
+        key = "c16:calibrate-long:%s" % f["claim"][:40]
+        if key in seen_long:
+            continue
+        seen_long.add(key)
+        text = "calibrate: %s" % f["claim"]
+        if "pixel" in f:
+            text += (": %s, pixel %d [%r, %r]: value*width = %r, spectrum.integrate = %r, independent integral of the interpolant = %r "
+                     "(%d of %d pixels fail)" % (f["layout"], f["pixel"], f["pixel_edges"][0], f["pixel_edges"][1],
+                                                 f["observed_value_times_width"], f["expected_spectrum_integrate"],
+                                                 f["expected_independent_integral"], f["pixels_failing"], f["pixels"]))
+        rep = {k: h[k] for k in ("kind", "classes", "grid", "features", "mbpp", "smin", "smax", "bins")}
+        rep.update({"failure": f, "wavelength_to_pixel": h["w2p"], "spectrum": {"min_wavelength": h["smin"], "max_wavelength": h["smax"],
+                                                                               "bins": h["bins"], "samples": h["ys"]},
+                    "how": "Spectrometer(wavelength_to_pixel, mbpp).calibrate(Spectrum(min, max, bins) with .samples = samples)"})
+        ctx.violation(key, text, jsonable(rep), found=True)
+    search_fails = search_fails + [(None, f["claim"]) for _, f in long_fails]
     if diff_cases and not search_fails:
         kinds = set()
         for ci, code in diff_cases:
@@ -1491,6 +1651,12 @@ def run(ctx):
                          "calibrate_error_cases(range too narrow)": sum(1 for h in cal if h["st"] == "err"),
                          "filter_error_cases": sum(1 for h in hist if h["kind"] == "filter" and not h["ok"]),
                          "search_cases": n_search, "corpus_files": len(corpus),
+                         "long_calibrations(search only, not run through Coq)": {
+                             "cases": len(long_cases), "pixels": sum(h["n_pixels"] for h in long_cases),
+                             "max_pixels_in_one_row": max(max(len(r) - 1 for r in h["w2p"]) for h in long_cases),
+                             "spectrum_grids": {g: sum(1 for h in long_cases if h["grid"] == g) for g in ("instrument", "wider", "coarse")},
+                             "features": {k: sum(1 for h in long_cases for f in h["features"] if f.startswith(k)) for k in
+                                          ("line inside", "line edge", "step inside", "step edge", "spike inside", "spike edge")}},
                          "input_classes": dict(sorted(STATS.items()))},
         "tolerance": {"ranges, bin counts, pixel edge/centre arrays, filter min/max/window/central_wavelength, kwargs, classes, "
                       "create_pipelines() result (class, name, filter identity of every pipeline), exception kinds of every call incl. the "
@@ -1499,7 +1665,9 @@ def run(ctx):
                       "pinned bodies, literal 1.e-15)": "equality checked by the kernel (Gen/C16/Source.v, Lemma source_tie)",
                       "calibrate values": "relative 2^-40 + absolute 2^-50 against the exact integral of the interpolant",
                       "search: bin width bound on doubles": "relative slack 2^-40 (theorem: ((1+u)/(1-u))^2, u=2^-53)",
-                      "search: value*width vs integrals": "1e-10 * max sample * pixel width"},
+                      "search: value*width vs integrals": "1e-10 * max sample * pixel width",
+                      "search, long pixel rows: value*width vs spectrum.integrate and vs an independent NumPy integral of the interpolant":
+                          "1e-9 * max sample * pixel width + 1e-13 * max sample * row length (measured on the unchanged code: < 1e-12 relative)"},
         "partial": ["CzernyTurnerSpectrometer.resolution is an oracle (its formula is not part of C16); Spectrum.integrate is raysect's and is "
                     "modelled by its specification; observational equality is proved for non-degenerate final parameters",
                     "order-independence and power-of-two scale covariance of the settings are checked on the implementation (search) only, "
